@@ -573,3 +573,136 @@ def check_class_level_containers(ctx, rule='A11m'):
                    f'{escapes[0][0].qualname} L{escapes[0][1].lineno}: {escapes[0][2]} - every '
                    f'{cls.name} of the session shares what is written there')
     return n
+
+
+# ---------------------------------------------------------------------- A27: setter-owned backing fields
+def check_setter_owned_fields(ctx, module_prefix='adsg_core.optimization.assign_enc', rule='A27'):
+    """A property setter that, besides storing the value in its backing field, recomputes other state (`matrix.setter`
+    encodes the design vectors and re-initialises the imputer) owns that field: a second writer that stores into the
+    backing field directly - on `self` or on a copy made inside the class - leaves the derived state describing the old
+    value.  Allowed writers: the setter itself and __init__ (construction)."""
+    prog = ctx.prog
+    n = 0
+    for cls in [c for m in prog.modules.values() if m.name.startswith(module_prefix) for c in m.all_classes]:
+        setters = [m for m in cls.methods.values() if any(d.endswith('.setter') for d in m.decorators)]
+        for st in setters:
+            stores = [a for a in walk_fn(st) if isinstance(a, ast.Assign) and is_self_attr(a.targets[0])]
+            if len(st.params) < 2:
+                continue
+            backing = [a.targets[0].attr for a in stores if isinstance(a.value, ast.Name) and a.value.id == st.params[1]
+                       or (isinstance(a.value, ast.Name) and any(
+                           isinstance(b, ast.Assign) and norm(b.targets[0]) == a.value.id and
+                           any(isinstance(x, ast.Name) and x.id == st.params[1] for x in ast.walk(b.value))
+                           for b in walk_fn(st)))]
+            derived = [a.targets[0].attr for a in stores if a.targets[0].attr not in backing]
+            if not backing or not derived:
+                continue
+            field = backing[0]
+            family = [cls] + prog.subclasses(cls)
+            writers = []
+            for c in family:
+                for m in c.methods.values():
+                    if m.name == '__init__' or (m.name == st.name and m in setters):
+                        continue
+                    for a in walk_fn(m):
+                        tgts = a.targets if isinstance(a, ast.Assign) else ([a.target] if isinstance(a, ast.AugAssign) else [])
+                        for t in tgts:
+                            if isinstance(t, ast.Attribute) and t.attr == field and isinstance(t.value, ast.Name):
+                                writers.append((m, a))
+            n += 1
+            ctx.touch(st)
+            ctx.ob(rule, fkey(st, rule, f'only-writer-of:{field}'), not writers, st.where,
+                   f'`{field}` is only stored by its property setter `{st.name}` (which also recomputes '
+                   f'{sorted(set(derived))[:4]}) and by __init__: state derived from it never describes another value',
+                   'no other writer' if not writers else
+                   f'{writers[0][0].qualname} L{writers[0][1].lineno} stores `{short(writers[0][1], 60)}` without the '
+                   f'recomputation the setter does')
+    return n
+
+
+# ---------------------------------------------------------------------- A26: what __getstate__ drops can be rebuilt
+def check_getstate_drops(ctx, module_prefix='adsg_core', rule='A26'):
+    """Objects of this package are pickled (selection cache, matrix cache, processors sent to worker processes).  A
+    `__getstate__` that replaces an attribute by an empty value claims "this is a cache that is rebuilt on demand".
+    That is only true if the class rebuilds it: (a) an empty *container* must be one the class fills as a memo (a
+    subscript store into it outside __init__) ; (b) a `None` must have a lazy initialiser (an assignment of the
+    attribute under the test that it is None) or be restored in `__setstate__`.  An attribute that only some mutating
+    operation computes (e.g. a mask derived from the fixed values) is state, not cache.  Other rewrites of the state
+    (replacing an attribute by a derived object) are not modelled: exit 2."""
+    prog = ctx.prog
+    n = 0
+    for cls in [c for m in prog.modules.values() if m.name.startswith(module_prefix) for c in m.all_classes]:
+        gs = cls.methods.get('__getstate__')
+        if gs is None:
+            continue
+        ss = cls.methods.get('__setstate__')
+        methods = {}
+        for k in prog.mro(cls):
+            for nm, m in k.methods.items():
+                methods.setdefault(nm, m)
+        for a in walk_fn(gs):
+            if not (isinstance(a, ast.Assign) and isinstance(a.targets[0], ast.Subscript) and
+                    isinstance(a.targets[0].slice, ast.Constant) and isinstance(a.targets[0].slice.value, str)):
+                continue
+            attr, v = a.targets[0].slice.value, a.value
+            n += 1
+            ctx.touch(gs)
+            empty_container = (isinstance(v, (ast.Dict, ast.List, ast.Set)) and not (getattr(v, 'keys', None) or
+                                                                                  getattr(v, 'elts', None))) or \
+                (isinstance(v, ast.Call) and isinstance(v.func, ast.Name) and v.func.id in ('dict', 'list', 'set') and
+                 not v.args and not v.keywords)
+            is_none = isinstance(v, ast.Constant) and v.value is None
+            if not (empty_container or is_none):
+                if ss is not None and any(is_self_attr(x, attr) for x in ast.walk(ss.node)):
+                    # replaced by a derived object that __setstate__ works on again: whether that makes it whole is
+                    # decided by the writer-discipline rule A27 (a re-attached field has one writer), not here
+                    ctx.note(f'A26 {gs.qualname}: `{attr}` is replaced by `{short(v, 50)}` and handled again in '
+                             f'__setstate__ - not decided by this rule')
+                    n -= 1
+                    continue
+                raise AnalysisError(f'A26 {gs.qualname}: the pickled state replaces `{attr}` by `{short(v, 50)}` - '
+                                    f'a rewrite of the state this rule does not model')
+            restored = ss is not None and any(
+                (isinstance(x, (ast.Assign, ast.AugAssign)) and any(is_self_attr(t, attr) for t in
+                                                                     (x.targets if isinstance(x, ast.Assign) else [x.target])))
+                for x in walk_fn(ss))
+            rebuilt = restored
+            how = '__setstate__ restores it' if restored else ''
+            for m in methods.values():
+                if rebuilt or m.name in ('__init__', '__getstate__'):
+                    continue
+                if empty_container:
+                    aliases = {norm(x.targets[0]) for x in walk_fn(m) if isinstance(x, ast.Assign) and
+                               isinstance(x.targets[0], ast.Name) and is_self_attr(x.value, attr)}
+                    aliases |= {norm(x.targets[0]) for g in m.nested.values() for x in walk_fn(g)
+                                if isinstance(x, ast.Assign) and isinstance(x.targets[0], ast.Name) and
+                                is_self_attr(x.value, attr)}
+                    scope = [m] + list(m.nested.values())
+                    if any(isinstance(x, ast.Assign) and any(
+                            isinstance(t, ast.Subscript) and (is_self_attr(t.value, attr) or norm(t.value) in aliases)
+                            for t in ast.walk(x) if isinstance(t, ast.Subscript) and isinstance(t.ctx, ast.Store))
+                           for f_ in scope for x in walk_fn(f_)) or \
+                            any(isinstance(x, ast.Call) and call_name(x) in ('add', 'setdefault') and
+                                isinstance(x.func, ast.Attribute) and is_self_attr(x.func.value, attr)
+                                for x in walk_fn(m)):
+                        rebuilt, how = True, f'memo container filled by {m.qualname}'
+                else:
+                    from ..cfg import build_cfg
+                    cfg = build_cfg(m)
+                    sts = [nd for nd in cfg.nodes if nd.kind == 'stmt' and isinstance(nd.ast, ast.Assign) and
+                           any(is_self_attr(t, attr) for t in nd.ast.targets)]
+                    if sts:
+                        ge = cfg.edges_implying(lambda atom, truth, attr=attr: (
+                            isinstance(atom, ast.Compare) and len(atom.ops) == 1 and is_self_attr(atom.left, attr) and
+                            isinstance(atom.comparators[0], ast.Constant) and atom.comparators[0].value is None and
+                            ((isinstance(atom.ops[0], (ast.Is, ast.Eq)) and truth is True) or
+                             (isinstance(atom.ops[0], (ast.IsNot, ast.NotEq)) and truth is False))))
+                        if ge and all(not cfg.can_reach(cfg.entry, s_, blocked_edges=ge) for s_ in sts):
+                            rebuilt, how = True, f'lazily initialised under `self.{attr} is None` in {m.qualname}'
+            ctx.ob(rule, fkey(gs, rule, f'dropped-state-is-rebuilt:{attr}'), rebuilt, f'{gs.module.relpath}:{a.lineno}',
+                   f'`{attr}` is left out of the pickled state of {cls.name}: the class rebuilds it on demand (memo '
+                   f'container / lazy initialiser / __setstate__)',
+                   how or f'nothing recomputes `{attr}` after unpickling: it is only assigned by operations that '
+                          f'change the object ({", ".join(sorted(m.name for m in methods.values() if m.name not in ("__init__", "__getstate__") and any(isinstance(x, ast.Assign) and any(is_self_attr(t, attr) for t in x.targets) for x in walk_fn(m)))[:3]) or "nobody"}), '
+                          f'so the restored object silently loses it')
+    return n
